@@ -7,7 +7,7 @@
 # /repo is always restored; nothing is committed there.
 cd "$(dirname "$0")/.." || exit 2
 pat="${1:-*}"
-out=seeded/MATRIX.md
+out=${MATRIX_OUT:-seeded/MATRIX.md}
 tmp=$(mktemp)
 echo "| seeded change | kind | check | exit | s | clause [signature] |" > "$tmp"
 echo "|---|---|---|---|---|---|" >> "$tmp"
